@@ -40,6 +40,7 @@ func runC13(c *Ctx) {
 	c13SanitizerUse(c)
 	c13UntrustedNames(c)
 	c13DiskJoin(c)
+	c13ValidatorCovers(c)
 }
 
 // ---- (1) R-ABSVALID ------------------------------------------------------------------------------
@@ -948,4 +949,61 @@ func c13FromSanitizer(p *Prog, v ssa.Value, depth int) bool {
 		}
 	}
 	return false
+}
+
+// ---- (6) VALIDATOR-COVERS (added with finding F27) ---------------------------------------------------------
+//
+// A function that exists to validate its arguments must consult every one of them: a named parameter that the body of
+// a validate* function never reads is an argument that goes unvalidated whatever the caller passes (F27: validatePaths
+// validated targetPaths twice and targetExcludePaths never, so an absolute --exclude-path on a tar/zip/git input was
+// re-rooted under the sub-directory instead of rejected). Decided on the type-checked syntax of every non-test
+// validate*/Validate* function of the module; parameters named _ and context.Context are exempt.
+func c13ValidatorCovers(c *Ctx) {
+	const rule = "VALIDATOR-COVERS"
+	c.Rule(rule, "every named parameter of a validate* function is consulted by its body", 40)
+	p := c.P
+	for _, pk := range p.ModulePkgs() {
+		for _, fr := range p.FuncsOf(pk) {
+			if fr.Decl.Body == nil || fr.Decl.Type.Params == nil {
+				continue
+			}
+			name := fr.Decl.Name.Name
+			if !strings.HasPrefix(strings.ToLower(name), "validate") {
+				continue
+			}
+			file := p.Fset.Position(fr.Decl.Pos()).Filename
+			if strings.HasSuffix(file, "_test.go") || strings.Contains(file, ".pb.") {
+				continue
+			}
+			used := map[types.Object]bool{}
+			ast.Inspect(fr.Decl.Body, func(n ast.Node) bool {
+				if id, ok := n.(*ast.Ident); ok {
+					if o := pk.TypesInfo.Uses[id]; o != nil {
+						used[o] = true
+					}
+				}
+				return true
+			})
+			var unused []string
+			nparams := 0
+			for _, f := range fr.Decl.Type.Params.List {
+				if namedName(pk.TypesInfo.TypeOf(f.Type)) == "Context" {
+					continue
+				}
+				for _, nm := range f.Names {
+					if nm.Name == "_" {
+						continue
+					}
+					nparams++
+					if o := pk.TypesInfo.Defs[nm]; o != nil && !used[o] {
+						unused = append(unused, nm.Name)
+					}
+				}
+			}
+			if nparams == 0 {
+				continue
+			}
+			c.Ob(rule, relPkg(pk.PkgPath)+"."+declName(fr.Decl), fr.Decl.Pos(), len(unused) == 0, true, "%d named parameter(s); never consulted: %v", nparams, unused)
+		}
+	}
 }
